@@ -225,7 +225,7 @@ def pick_fs(rng):
 def run_C08(chk):
     chk.prepare_model('Cctz.Properties.C08', THEOREMS['C08'])
     exe = chk.harness('san')
-    scale = chk.tier if not chk.broken else 'thorough'
+    scale = chk.tier if not (chk.broken or chk.degraded) else 'thorough'
     if exe is None or not getattr(chk, 'driver_ok', False):
         return chk.finish()
     rng = chk.rng
@@ -302,7 +302,7 @@ def gen_lossless(rng, off_has_seconds):
 def run_C07(chk):
     chk.prepare_model(['Cctz.Properties.C07', 'Cctz.Properties.C07Whole'], THEOREMS['C07'])
     exe = chk.harness('san')
-    scale = chk.tier if not chk.broken else 'thorough'
+    scale = chk.tier if not (chk.broken or chk.degraded) else 'thorough'
     if exe is None or not getattr(chk, 'driver_ok', False):
         return chk.finish()
     rng = chk.rng
@@ -381,7 +381,7 @@ FRAC_CASES = [(b'%E*S', b'05.'), (b'%E3S', b'05.'), (b'%H:%M:%E*S', b'20:21:05.'
 def run_C09(chk):
     chk.prepare_model('Cctz.Properties.C09', THEOREMS['C09'])
     exe = chk.harness('san')
-    scale = chk.tier if not chk.broken else 'thorough'
+    scale = chk.tier if not (chk.broken or chk.degraded) else 'thorough'
     if exe is None or not getattr(chk, 'driver_ok', False):
         return chk.finish()
     rng = chk.rng
